@@ -6,6 +6,9 @@
    is a collision pair of H2 or a transaction id that is also an interior node. *)
 From Coq Require Import List Bool NArith.
 From ELA Require Import model.C07_Merkle proof.C07_Merkle.
+(* the correspondence checker is required (not imported) only so that building this
+   file also rebuilds it when the model changes; no theorem below uses it *)
+From ELA Require corr.C07_corr.
 Import ListNotations.
 
 Section C07.
@@ -56,6 +59,13 @@ Section C07.
   Theorem C07_duplicated_tail_rejected : forall r (l : list (tx hash)) t,
     In t l -> check_block_sanity_core hash hash_eq_dec H2 r (l ++ [t]) <> Accept.
   Proof. exact (duplicated_tail_rejected hash hash_eq_dec H2). Qed.
+
+  (* Why the duplicate check is part of the binding: the root alone does not
+     distinguish a list from its duplicated-tail twin (no property of H2 used). *)
+  Theorem C07_duplicated_tail_same_root : forall a b c d e f : hash,
+    merkle_root hash H2 [a; b; c] = merkle_root hash H2 [a; b; c; c] /\
+    merkle_root hash H2 [a; b; c; d; e; f] = merkle_root hash H2 [a; b; c; d; e; f; e; f].
+  Proof. intros. split; reflexivity. Qed.
 End C07.
 
 Print Assumptions C07_accepted_iff.
@@ -64,11 +74,12 @@ Print Assumptions C07_root_inj_nodup.
 Print Assumptions C07_accepted_unique.
 Print Assumptions C07_mutation_rejected.
 Print Assumptions C07_duplicated_tail_rejected.
+Print Assumptions C07_duplicated_tail_same_root.
 
-(* Non-vacuity, with H2 a b = 2^a * 3^b-like injective pairing on N replaced by
-   a simple non-injective function to show both sides: an accepted 3-transaction
-   block exists; the duplicate check is what rejects its duplicated-tail twin,
-   whose merkle root is the same. *)
+(* Non-vacuity with a concrete H2 on N: an accepted 3-transaction block exists;
+   its duplicated-tail twin has the same merkle root and is rejected by the
+   duplicate check; an exchange is rejected by the root; a second coinbase and
+   a missing first coinbase are rejected as such. *)
 Local Open Scope N_scope.
 Definition ex_h2 (a b : N) : N := 1000 + 100 * a + b.
 Example C07_nonvacuous :
